@@ -52,6 +52,10 @@ class ColEngine:
         for a in self.table_params(f):
             sets = [s["tabs"].get(a, frozenset()) for s in exits]
             mw[a] = frozenset.intersection(*sets) if sets else frozenset()
+        mb = {}
+        for a in self.table_params(f):
+            sets = [s["tabs"].get(a, frozenset()) for s in exits]
+            mb[a] = (frozenset.union(*sets) - mw[a] if sets else frozenset()) | frozenset().union(*[s.get("maybe", {}).get(a, frozenset()) for s in exits])
         rp = set(fl.ret_params)
         rparam = (rp.pop() if len(rp) == 1 and len(fl.ret_params) == fl.n_returns else None)
         if rparam == "<new>":
@@ -59,7 +63,8 @@ class ColEngine:
         res = {"must_write": mw, "ret_top": fl.ret_top, "may_top": {a: any(a in st_.get("top", ()) for st_ in exits) for a in self.table_params(f)},
                "ret_table": frozenset.intersection(*fl.ret_tables) if fl.ret_tables and len(fl.ret_tables) == fl.n_returns else None,
                "ret_keys": frozenset.intersection(*fl.ret_dicts) if fl.ret_dicts and len(fl.ret_dicts) == fl.n_returns else None,
-               "ret_param": rparam}
+               "ret_param": rparam, "maybe_write": mb,
+               "ret_maybe": (frozenset.union(*fl.ret_tables) if fl.ret_tables else frozenset()) | frozenset().union(*fl.ret_maybes)}
         self._active.discard(key)
         self.summ[key] = res
         return res
@@ -111,18 +116,26 @@ class _ColFlow(Flow):
         self.ret_params: List[str] = []
         self.n_returns = 0
         self.ret_top = False
+        self.ret_maybes: List[FrozenSet[str]] = []
 
     def copy(self, s):
-        return {"tabs": dict(s["tabs"]), "dicts": dict(s["dicts"]), "top": set(s.get("top", ())), "acc": dict(s.get("acc", {}))}
+        return {"tabs": dict(s["tabs"]), "dicts": dict(s["dicts"]), "top": set(s.get("top", ())), "acc": dict(s.get("acc", {})),
+                "maybe": dict(s.get("maybe", {})), "bools": dict(s.get("bools", {}))}
 
     def join(self, a, b):
         return {"tabs": {k: a["tabs"][k] & b["tabs"][k] for k in set(a["tabs"]) & set(b["tabs"])},
                 "dicts": {k: a["dicts"][k] & b["dicts"][k] for k in set(a["dicts"]) & set(b["dicts"])},
                 "top": set(a.get("top", ())) | set(b.get("top", ())),
-                "acc": {k: v for k, v in a.get("acc", {}).items() if b.get("acc", {}).get(k) == v}}
+                "acc": {k: v for k, v in a.get("acc", {}).items() if b.get("acc", {}).get(k) == v},
+                # columns written on one side only of a test this analysis cannot decide: a later read of such a column is UNDECIDED (the code may
+                # well read it under the same condition), never an alarm
+                "maybe": {k: a.get("maybe", {}).get(k, frozenset()) | b.get("maybe", {}).get(k, frozenset()) | (a["tabs"][k] ^ b["tabs"][k])
+                          for k in set(a["tabs"]) & set(b["tabs"])},
+                "bools": {k: v for k, v in a.get("bools", {}).items() if b.get("bools", {}).get(k) == v}}
 
     def equal(self, a, b):
-        return a["tabs"] == b["tabs"] and a["dicts"] == b["dicts"] and set(a.get("top", ())) == set(b.get("top", ()))
+        return a["tabs"] == b["tabs"] and a["dicts"] == b["dicts"] and set(a.get("top", ())) == set(b.get("top", ())) \
+            and a.get("maybe", {}) == b.get("maybe", {})
 
     def escapes(self, node: ast.AST, s):
         """table variables that occur in `node` in a position whose effect on the table is not modelled (alias, container element, argument of an
@@ -178,6 +191,8 @@ class _ColFlow(Flow):
             return self.flags[t.attr]
         if isinstance(t, ast.Name) and isinstance(self.flags.get(t.id), bool):
             return self.flags[t.id]
+        if isinstance(t, ast.Name) and s is not None and t.id in s.get("bools", {}):
+            return s["bools"][t.id]
         if isinstance(t, ast.Compare) and len(t.ops) == 1 and isinstance(t.left, ast.Name) and isinstance(t.comparators[0], ast.Constant) \
                 and t.comparators[0].value is None and isinstance(t.ops[0], (ast.Is, ast.IsNot)):
             v = self.flags.get(t.left.id)
@@ -196,10 +211,10 @@ class _ColFlow(Flow):
         if isinstance(t, ast.Constant) and isinstance(t.value, (bool, int)):
             return bool(t.value)
         if isinstance(t, ast.UnaryOp) and isinstance(t.op, ast.Not):
-            v = self.flag_value(t.operand)
+            v = self.flag_value(t.operand, s)
             return None if v is None else not v
         if isinstance(t, ast.BoolOp):
-            vs = [self.flag_value(v) for v in t.values]
+            vs = [self.flag_value(v, s) for v in t.values]
             if isinstance(t.op, ast.Or):
                 if any(v is True for v in vs):
                     return True
@@ -225,7 +240,7 @@ class _ColFlow(Flow):
             return s["dicts"].get(e.id)
         if isinstance(e, ast.IfExp):
             a, b = self.dict_keys(e.body, s), self.dict_keys(e.orelse, s)
-            fv = self.flag_value(e.test)
+            fv = self.flag_value(e.test, s)
             if fv is True:
                 return a
             if fv is False:
@@ -291,6 +306,25 @@ class _ColFlow(Flow):
                     return True
         return False
 
+    def _call_ret_maybe(self, e: ast.AST, s) -> FrozenSet[str]:
+        """columns the table produced by this call holds on some paths only"""
+        out: FrozenSet[str] = frozenset()
+        if isinstance(e, ast.Name):
+            return s.get("maybe", {}).get(e.id, frozenset())
+        if not isinstance(e, ast.Call):
+            return out
+        for tg in self.eng.r.resolve_call(self.f, e):
+            if isinstance(tg, FuncInfo) and not isinstance(tg.node, ast.Lambda):
+                sm = self.eng.summarise(tg, self.eng.call_context(self, tg, e, s), self.depth + 1)
+                out |= sm.get("ret_maybe", frozenset())
+                rp = sm.get("ret_param")
+                if rp is not None:
+                    out |= sm.get("maybe_write", {}).get(rp, frozenset())
+                    for a in list(e.args) + [k.value for k in e.keywords]:
+                        if isinstance(a, ast.Name) and a.id in s["tabs"]:
+                            out |= s.get("maybe", {}).get(a.id, frozenset())
+        return out
+
     def table_var(self, e: ast.AST, s) -> Optional[str]:
         return e.id if isinstance(e, ast.Name) and e.id in s["tabs"] else None
 
@@ -318,6 +352,8 @@ class _ColFlow(Flow):
                     continue
                 if tv in s.get("top", ()) and c not in s["tabs"][tv]:
                     continue                      # the table went through code this analysis does not model: undecided, not an alarm
+                if c not in s["tabs"][tv] and c in s.get("maybe", {}).get(tv, ()):
+                    continue                      # written under a condition that could not be decided: undecided
                 self.record(self.f, n, tv, c, c in s["tabs"][tv])
 
     def effects(self, node: ast.AST, s):
@@ -359,11 +395,27 @@ class _ColFlow(Flow):
                                 s["tabs"][tv] = s["tabs"][tv] | sm["must_write"].get(pn, frozenset())
                                 if sm.get("may_top", {}).get(pn):
                                     s["top"].add(tv)
+                                mb = sm.get("maybe_write", {}).get(pn)
+                                if mb:
+                                    s.setdefault("maybe", {})[tv] = s.get("maybe", {}).get(tv, frozenset()) | mb
 
     def transfer(self, st, s):
         if isinstance(st, (ast.FunctionDef, ast.AsyncFunctionDef, ast.ClassDef)):
+            cap = {x.id for x in ast.walk(st) if isinstance(x, ast.Name) and x.id in s["tabs"]}
+            if cap:
+                s = self.copy(s)
+                s["top"] |= cap                   # a local helper closes over the table: what is done to the table through it is not modelled
             return s
         s = self.copy(s)
+        if isinstance(st, ast.Assign) and len(st.targets) == 1 and isinstance(st.targets[0], ast.Name):
+            bv = self.flag_value(st.value, s) if isinstance(st.value, (ast.BoolOp, ast.Compare, ast.UnaryOp, ast.Call)) else None
+            if bv is not None:
+                s["bools"][st.targets[0].id] = bv
+            else:
+                s["bools"].pop(st.targets[0].id, None)
+        for x in ast.walk(st):
+            if isinstance(x, ast.Lambda):
+                s["top"] |= {y.id for y in ast.walk(x) if isinstance(y, ast.Name) and y.id in s["tabs"]}
         # view binding:  v = pt.col[K]   /   a, b = col[K1], col[K2]   - the local is a live view of the column and the code may fill the column THROUGH it
         # (v[:] = ..., np.multiply(.., out=v), v.fill(..), v += ..).  Binding is not a read of the contents, and from here on the column counts as written.
         if isinstance(st, ast.Assign) and all(isinstance(t, (ast.Name, ast.Tuple)) for t in st.targets):
@@ -423,6 +475,7 @@ class _ColFlow(Flow):
                     if newtab is not None:
                         s["tabs"][t.id] = frozenset(newtab)
                         s["top"].discard(t.id)
+                        s.setdefault("maybe", {})[t.id] = self._call_ret_maybe(v, s)
                         if self._call_ret_top(v, s):
                             s["top"].add(t.id)
                     else:
@@ -434,6 +487,7 @@ class _ColFlow(Flow):
                     nt = self.table_expr(st.value, s)
                     if nt is not None and t.elts and isinstance(t.elts[0], ast.Name):
                         s["tabs"][t.elts[0].id] = frozenset(nt)
+                        s.setdefault("maybe", {})[t.elts[0].id] = self._call_ret_maybe(st.value, s)
                         if self._call_ret_top(st.value, s):
                             s["top"].add(t.elts[0].id)
         if isinstance(st, ast.Return):
@@ -445,6 +499,7 @@ class _ColFlow(Flow):
                 if (isinstance(v0, ast.Name) and v0.id in s.get("top", ())) or self._call_ret_top(v0, s):
                     self.ret_top = True
                 self.ret_tables.append(te)
+                self.ret_maybes.append(self._call_ret_maybe(v0, s))
                 if isinstance(v0, ast.Name) and v0.id in self.eng.table_params(self.f):
                     self.ret_params.append(v0.id)
                 else:
